@@ -1707,6 +1707,28 @@ func checkNoticeDecisionOnCleanedLine(c *Ctx, p *core.Prog) {
 			if call, ok := v.(*ssa.Call); ok && call.Call.StaticCallee() == ct {
 				return true
 			}
+			// the result of a helper of the package: what the helper returns
+			if call, ok := v.(*ssa.Call); ok {
+				if g := call.Call.StaticCallee(); g != nil && g != ct && core.FuncPkgPath(g) == v2pkg && len(g.Blocks) > 0 {
+					for _, gb := range g.Blocks {
+						if ret, isRet := gb.Instrs[len(gb.Instrs)-1].(*ssa.Return); isRet {
+							for _, rv := range ret.Results {
+								if dep(rv, seen, depth+1) {
+									return true
+								}
+							}
+						}
+					}
+				}
+			}
+			// a parameter of a helper: what some call site passes
+			if prm, ok := v.(*ssa.Parameter); ok {
+				for _, tup := range callSiteTuples(p, []ssa.Value{prm}) {
+					if tup[0] != ssa.Value(prm) && dep(tup[0], seen, depth+1) {
+						return true
+					}
+				}
+			}
 			// a slice: anything appended to it (loop-carried)
 			if _, isSl := v.Type().Underlying().(*types.Slice); isSl {
 				for m := range sliceFamily(v) {
